@@ -159,6 +159,14 @@ def run_cursor(words):
         ops.append(cur)
     sc = TokenScanner(toks)
     out = []
+
+    def show_child(c):
+        """a child cursor must start at its first token whatever happened to earlier child cursors; then one token of it is consumed"""
+        rest = list(c.elements)[c.pos:]
+        txt = ("sc[" if c.pos == 0 else "sc[!pos=%d " % c.pos) + show_tokens(rest) + "]"
+        if not c.is_finish:
+            c.pop()
+        return txt
     for op in ops:
         k = op[0]
         try:
@@ -184,9 +192,9 @@ def run_cursor(words):
             elif k == "psrc":
                 r = "str[" + cps(sc.pop_as_source()) + "]"
             elif k == "ch":
-                r = "sc[" + show_tokens(sc.get_as_children_scanner().elements) + "]"
+                r = show_child(sc.get_as_children_scanner())
             elif k == "pch":
-                r = "sc[" + show_tokens(sc.pop_as_children_scanner().elements) + "]"
+                r = show_child(sc.pop_as_children_scanner())
             elif k == "s":
                 r = show_val(sc.search(*[pat_of(w) for w in op[1:]]))
             elif k == "S":
@@ -220,7 +228,7 @@ def run_cursor(words):
             elif k == "Ssetu":
                 r = show_val(sc.search_and_move_one_type_set_use_upper({word_str(w) for w in op[1:]}))
             elif k == "split":
-                r = "scs[" + "|".join(show_tokens(x.elements) for x in sc.pop_as_children_scanner_list_split_by(word_str(op[1]))) + "]"
+                r = "scs[" + "|".join(show_child(x)[3:-1] for x in sc.pop_as_children_scanner_list_split_by(word_str(op[1]))) + "]"
             else:
                 r = "BAD-OP"
         except Exception as e:  # noqa
@@ -500,6 +508,30 @@ def handle(line: str) -> str:
                         problems.append("equal trees are two set members")
                 except TypeError:
                     problems.append("unhashable statement")
+            # every field takes part in == : a copy that differs in exactly one scalar field (or has a shorter tuple) is a different value
+            for n in nodes[:200]:
+                for f in _dc.fields(n):
+                    x = getattr(n, f.name)
+                    if isinstance(x, bool):
+                        y = not x
+                    elif isinstance(x, str):
+                        y = x + "_z"
+                    elif isinstance(x, int):
+                        y = x + 1
+                    elif isinstance(x, tuple) and x:
+                        y = x[:-1]
+                    else:
+                        continue
+                    try:
+                        n2 = _dc.replace(n, **{f.name: y})
+                    except Exception:  # noqa
+                        continue
+                    if n2 == n or not (n2 != n):
+                        problems.append("%s: copies that differ in field %s compare equal" % (type(n).__name__, f.name))
+                    elif len({n, n2}) != 2:
+                        problems.append("%s: copies that differ in field %s are one set member" % (type(n).__name__, f.name))
+                if len(problems) > 3:
+                    break
             # structural inequality: nodes compare equal iff their reflective dumps are equal
             sample = nodes[:60]
             dumps = [pydump.dump(n) for n in sample]
@@ -627,7 +659,14 @@ def handle(line: str) -> str:
                 st["handle"] += 1
                 return orig_handle(self, memory, ch)
             M.handle = handle_w
+            import sys as _sys
+
+            def prof(frame, event, arg):
+                if event == "call" and "metasequoia_sql" in frame.f_code.co_filename:
+                    st["pycalls"] += 1
+            st["pycalls"] = 0
             try:
+                _sys.setprofile(prof)
                 try:
                     toks = M.parse(text)
                     n_tok = 0
@@ -649,10 +688,12 @@ def handle(line: str) -> str:
                     st["parse"] = "ERR Recursion"
                 except Exception as e:  # noqa
                     st["parse"] = "ERR " + err_name(e)
+                _sys.setprofile(None)
                 st["handle_total"] = st["handle"]
                 st["handle"] = lex_handle
                 st["chars"] = len(preproc_sql(text))
             finally:
+                _sys.setprofile(None)
                 M.handle = orig_handle
                 for k, v in saved.items():
                     setattr(TS, k, v)
